@@ -47,9 +47,17 @@ LARK = [
     ("doc_think", 'start: "<think>" "\\n" body "</think>" address\nbody[lazy]: /(.|\\n)*<\\/think>/\n'
                   'address: %json {"type":"object","properties":{"zip":{"type":"number"}},"required":["zip"],"additionalProperties":false}\n'),
     ("lazy_mixed", 'start: (a | b) "."\na: T "!"\nb: hd "=" /[0-9]+/\nT: /[a-z ]+/\nhd[lazy]: /[a-z ]*key/\n'),
-    ("param_perm", 'start    :  perm::0x0\nperm::_  :  ""                  %if is_ones([0:3])\n'
-                   '         |  a::_ | b::_ | c::_\na::_     :  "a" perm::set_bit(0) %if !bit_and(0x1)\n'
-                   'b::_     :  "b" perm::set_bit(1) %if !bit_and(0x2)\nc::_     :  "c" perm::set_bit(2) %if !bit_and(0x4)\n'),
+    # docs/parametric.md
+    ("param_perm", 'start    :  perm::0x0\nperm::_  :  ""                       %if is_ones([0:3])\n'
+                   '         |  "a" perm::set_bit(0)     %if bit_clear(0)\n         |  "b" perm::set_bit(1)     %if bit_clear(1)\n'
+                   '         |  "c" perm::set_bit(2)     %if bit_clear(2)\n'),
+    ("param_count", 'start  : lst::0x0\nlst::_ : "a" lst::incr([0:3])  %if lt([0:3], 2)\n       | "b" lst::incr([3:6])  %if lt([3:6], 3)\n'
+                    '       | "c" lst::incr([6:9])  %if lt([6:9], 2)\n       | ""\n'),
+    ("param_pick", 'start    :  perm::0x0\nperm::_  :  ""                       %if bit_count_ge(_, 1)\n'
+                   '         |  "a" perm::set_bit(0)     %if and(bit_clear(0), bit_count_lt(_, 3))\n'
+                   '         |  "b" perm::set_bit(1)     %if and(bit_clear(1), bit_count_lt(_, 3))\n'
+                   '         |  "c" perm::set_bit(2)     %if and(bit_clear(2), bit_count_lt(_, 3))\n'
+                   '         |  "d" perm::set_bit(3)     %if and(bit_clear(3), bit_count_lt(_, 3))\n'),
 ]
 
 # Outside the core fragment (stop=, max_tokens=, temperature=): used only by properties whose
@@ -94,8 +102,7 @@ SCHEMAS = [
     ("str_len_unicode", {"type": "string", "minLength": 2, "maxLength": 5}),
     ("const_obj", {"const": {"k": [1, 2, {"z": "q"}], "s": "x\ny"}}),
     ("allof", {"allOf": [{"type": "object", "properties": {"a": {"type": "integer"}}, "required": ["a"]},
-                         {"type": "object", "properties": {"b": {"type": "string", "maxLength": 3}}}],
-               "additionalProperties": False}),
+                         {"type": "object", "properties": {"b": {"type": "string", "maxLength": 3}}}]}),
     ("prefix_items", {"type": "array", "prefixItems": [{"type": "integer"}, {"enum": ["x", "y"]}],
                       "items": {"type": "boolean"}, "minItems": 1, "maxItems": 4}),
     ("free_object", {"type": "object"}),
